@@ -121,6 +121,8 @@ class ModuleInfo:
         self.digest = hashlib.sha256(raw).hexdigest()
         self.source = raw.decode('utf-8')
         self.tree = _strip_noise(ast.parse(self.source, filename=relpath))
+        from .spelling import canonical, numpy_alias
+        self.tree = canonical(self.tree, numpy_alias(self.tree))
         mod = relpath[:-3].replace('/', '.')
         self.is_pkg = mod.endswith('.__init__')
         if self.is_pkg:
